@@ -49,7 +49,7 @@ void
 assign_probes(Case &c, int cap)
 {
   const int n = static_cast<int>(c.threads.size());
-  const int style = weighted({3, 3, 2, 2, 2});
+  const int style = weighted({3, 3, 2, 2, 2, 3});
   const uint64_t base = static_cast<uint64_t>(pick(0, cap - 1));
   for (int t = 0; t < n; t++) {
     switch (style) {
@@ -57,6 +57,7 @@ assign_probes(Case &c, int cap)
       case 1: c.threads[t].probe = static_cast<uint64_t>(t); break;              // distinct
       case 2: c.threads[t].probe = static_cast<uint64_t>(cap - 1); break;        // wrap-around start
       case 3: c.threads[t].probe = *rc::gen::arbitrary<uint64_t>(); break;       // arbitrary hash
+      case 5: c.threads[t].probe = static_cast<uint64_t>(pick(0, cap - 1)) + static_cast<uint64_t>(cap) * static_cast<uint64_t>(pick(0, cap + 2)); break;  // a + cap*b: every (hash % cap, hash / cap % cap) class
       default: c.threads[t].probe = static_cast<uint64_t>(pick(0, cap)); break;  // near collisions
     }
   }
@@ -122,6 +123,12 @@ gen_id_case(const std::string &p, int cap)
       }
     }
     if (p == "C15" && chance(70)) ops.insert(ops.begin(), mk(GETHB));
+    if (p == "C14" && chance(50)) {
+      // a holder that stays in user code for a while after taking its ID
+      ops.insert(ops.begin(), mk(GETID));
+      const int extra = pick(2, 8);
+      for (int k = 0; k < extra; k++) ops.push_back(mk(chance(60) ? YIELD : SPIN, static_cast<uint32_t>(pick(1, 4))));
+    }
   }
   assign_probes(c, cap);
   assign_starts(c, p == "C15" ? 55 : 30);
@@ -184,7 +191,7 @@ gen_epoch_case(const std::string &p, int cap)
           default: ops.push_back(mk(SPIN, static_cast<uint32_t>(pick(1, 5)))); break;
         }
       }
-      if (chance(85)) ops.push_back(mk(GUARD_END, static_cast<uint32_t>(pick(0, 1))));
+      if (chance(85)) ops.push_back(mk(GUARD_END, static_cast<uint32_t>(pick(0, 2))));
       if (chance(30)) ops.push_back(mk(READ_CUR));
     }
   }
